@@ -440,7 +440,11 @@ def check_C04(tier, seed, replay=None):
 
 
 def check_C05(tier, seed, replay=None):
-    return ref_family_check("C05", tier, seed, [("bin", 4000), ("epoch:bin", 600)], [("bin", 80000), ("deep", 20000), ("epoch:bin", 15000)])
+    corr = _corr_generic("bincases", "C05", "Bin.run_operator (hash join over the series lists, per-step table with timestamp tags, output "
+                         "labels, many-to-many errors) on the operand streams of the engine's own operator trees vs the engine's result "
+                         "for `L op R` over selectors (arithmetic and comparison operators on primitive floats, on/ignoring, "
+                         "group_left/group_right with included labels, bool)", 40, 400, shards_quick=8, shards_thorough=32)
+    return ref_family_check("C05", tier, seed, [("bin", 4000), ("epoch:bin", 600)], [("bin", 80000), ("deep", 20000), ("epoch:bin", 15000)], corr=corr)
 
 
 def check_C06(tier, seed, replay=None):
